@@ -156,6 +156,31 @@ SNIPPETS = [
     ({'x': b'#.change:\n'}, "r = x.decode('ascii').strip()", 'weak-symbolic'),
     ({'n': 4}, "r = '.' * n + 'meta'"),
     ({'x': '..meta'}, "r = len(x) - len(x.lstrip('.'))", 'unsupported'),
+    # --- aliasing / heap (what C18 / C19 rest on) --------------------------
+    ({'n': 7}, "a = [1]\nb = a\nb.append(n)\nr = a"),
+    ({'n': 7}, "a = {'k': [1]}\nb = a.copy()\nb['k'].append(n)\nb['j'] = 0\nr = (a['k'], len(a))"),
+    ({'n': 7}, "a = {'k': [1]}\nb = deepcopy(a)\nb['k'].append(n)\nr = (a['k'], b['k'])"),
+    ({'n': 7}, "a = [1, 2]\nb = a[:]\nb.append(n)\nr = (len(a), len(b))"),
+    ({'n': 7}, "d = {}\ne = d\ne['x'] = n\nr = d.get('x')"),
+    ({'n': 7}, "a = [1]\nb = a\na += [n]\nr = b"),
+    ({'n': 7}, "t = (1, [2])\nt[1].append(n)\nr = t"),
+    ({'n': 7}, "d = {}\nd.setdefault('k', []).append(n)\nd.setdefault('k', []).append(1)\nr = d", 'unsupported'),
+    ({'n': 7}, "d = {'a': 1}\ne = d\nd.clear()\nd.update({'b': n})\nr = e"),
+    ({'n': 7}, "d = {'a': 1, 'b': n}\ndel d['a']\nr = ('a' in d, 'b' in d, len(d))", 'unsupported'),
+    ({'n': 7}, "d = {'a': 1}\ne = dict(d)\ne['a'] = n\nr = d['a']"),
+    ({'n': 7}, "r = []\nfor k, v in {'a': 1, 'b': n}.items():\n    r.append((k, v))"),
+    ({'x': 'v'}, "r = '%s/%s' % (None, x)"),
+    ({'n': 1}, "r = (n == True, n is True, isinstance(True, int))", 'weak'),
+    ({'n': 1}, "r = {'a': n} == {'a': True}", 'weak'),
+    ({'n': 7}, "a = [1, 2]\nb = [1, 2]\nr = (a == b, a is b, a is a)"),
+    ({'n': 7}, "def_d = {'f': 'json'}\no1 = def_d.copy()\no2 = def_d.copy()\no1['f'] = n\nr = (o2['f'], def_d['f'])"),
+    ({'n': 2}, "l = [10, 20, 30]\nr = (l[n], l[-1], l[:n], l.index(20))", 'unsupported'),
+    ({'n': 2}, "l = [10, 20, 30]\nr = (l[1], l[-1], l[:2], l[1:])"),
+    ({'n': 2},
+     "l = [10, 20]\ntry:\n    r = l[n]\nexcept IndexError:\n    r = -1",
+     'unsupported-symbolic'),
+    ({'n': 7}, "a = b = []\na.append(n)\nr = b"),
+    ({'x': 'k'}, "d = {'k': 1}\nr = [d.pop(x), len(d)]", 'unsupported-symbolic'),
 ]
 
 
@@ -195,8 +220,8 @@ def run_one(args):
     if kind.endswith('-symbolic'):
         kind = kind[:-9] if mode == 'symbolic' else 'exact'
     env = dict(inputs)
-    import io, os, re, json
-    env.update({'io': io, 'os': os, 're': re, 'json': json})
+    import io, os, re, json, copy
+    env.update({'io': io, 'os': os, 're': re, 'json': json, 'deepcopy': copy.deepcopy})
     exec(body, env)
     want = env['r']
     if mode == 'literal':
@@ -213,7 +238,7 @@ def run_one(args):
             v = scenario.run_scenario(
                 eng, 'difftest%d' % idx, DS.MOD, src,
                 [(label, 'r == %s' % literal(expect))], max_paths=200,
-                extra_modules=('pydiffx.errors', 'io', 're', 'os', 'json'))
+                extra_modules=('pydiffx.errors', 'io', 're', 'os', 'json', 'copy'))
         except Exception as e:  # noqa
             return idx, mode, 'engine error %s: %s' % (type(e).__name__, e)
         if v.undecided:
